@@ -112,7 +112,7 @@ Proof.
   intros s density natural_density ws v rho Hws Hd Hrho Hpos H.
   apply (nsf_model_refines_spec the_nd s density natural_density ws v rho); try assumption.
   intros p Hin. destruct (Hd p Hin) as [H1 H2]. rewrite the_nd_env.
-  split; [exact H1|]. split; [exact H2|]. intro Hdata. apply the_nd_ok. exact Hdata.
+  split; [exact H1|]. split; [exact H2|]. intro Hdata. apply the_nd_ok. unfold has_data in Hdata. exact Hdata.
 Qed.
 
 (* ------------------------------------------------------------------ full strength of the None clause *)
